@@ -768,6 +768,32 @@ def reportedSlots : List (String × List String) :=
    ("QGlobalAveragePooling2D", ["average_quantizer"]),
    ("QScaleShift", ["weight_quantizer", "bias_quantizer"])]
 
+/-- per layer class: the constructor arguments of its KERAS base classes that the class does not name
+    and that reach the base class through `**kwargs` (name, default, written by get_config, read at
+    inference), observed live along the MRO -/
+def baseKwargs : List (String × List BaseKw) :=
+  [("QDense", []),
+   ("QConv1D", [⟨"data_format", (.str "channels_last"), true, true⟩, ⟨"groups", (.num (1 : Rat)), true, true⟩]),
+   ("QConv2D", [⟨"groups", (.num (1 : Rat)), true, true⟩]),
+   ("QConv2DTranspose", [⟨"groups", (.num (1 : Rat)), true, true⟩]),
+   ("QSimpleRNNCell", [⟨"seed", .none, false, false⟩]),
+   ("QSimpleRNN", [⟨"time_major", (.bool false), true, true⟩]),
+   ("QLSTMCell", [⟨"seed", .none, false, false⟩]),
+   ("QLSTM", [⟨"time_major", (.bool false), true, true⟩]),
+   ("QGRUCell", [⟨"seed", .none, false, false⟩]),
+   ("QGRU", [⟨"time_major", (.bool false), true, true⟩]),
+   ("QDepthwiseConv2D", [⟨"groups", (.num (1 : Rat)), true, true⟩, ⟨"kernel_initializer", (.str "glorot_uniform"), false, false⟩, ⟨"kernel_regularizer", .none, false, false⟩, ⟨"kernel_constraint", .none, false, false⟩]),
+   ("QSeparableConv1D", [⟨"groups", (.num (1 : Rat)), true, true⟩, ⟨"kernel_initializer", (.str "glorot_uniform"), true, false⟩, ⟨"kernel_regularizer", .none, true, false⟩, ⟨"kernel_constraint", .none, true, false⟩]),
+   ("QSeparableConv2D", [⟨"groups", (.num (1 : Rat)), true, true⟩, ⟨"kernel_initializer", (.str "glorot_uniform"), true, false⟩, ⟨"kernel_regularizer", .none, true, false⟩, ⟨"kernel_constraint", .none, true, false⟩]),
+   ("QActivation", []),
+   ("QAdaptiveActivation", []),
+   ("QBatchNormalization", [⟨"synchronized", (.bool false), false, false⟩, ⟨"renorm_clipping", .none, false, false⟩, ⟨"renorm_momentum", (.num ((4458563631096791 : Rat) / 4503599627370496)), false, false⟩]),
+   ("QConv2DBatchnorm", [⟨"groups", (.num (1 : Rat)), true, true⟩]),
+   ("QDepthwiseConv2DBatchnorm", [⟨"groups", (.num (1 : Rat)), true, true⟩, ⟨"kernel_initializer", (.str "glorot_uniform"), false, false⟩, ⟨"kernel_regularizer", .none, false, false⟩, ⟨"kernel_constraint", .none, false, false⟩]),
+   ("QAveragePooling2D", []),
+   ("QGlobalAveragePooling2D", [⟨"keepdims", (.bool false), true, true⟩]),
+   ("QScaleShift", [])]
+
 /-- keys of `_add_supported_quantized_objects`, in insertion order -/
 def customObjects : List String :=
   ["QInitializer", "QDense", "QConv1D", "QConv2D", "QConv2DTranspose", "QSimpleRNNCell", "QSimpleRNN", "QLSTMCell", "QLSTM", "QGRUCell", "QGRU", "QBidirectional", "QDepthwiseConv2D", "QSeparableConv1D", "QSeparableConv2D", "QActivation", "QAdaptiveActivation", "QBatchNormalization", "Clip", "quantized_bits", "bernoulli", "stochastic_ternary", "ternary", "stochastic_binary", "binary", "quantized_relu", "quantized_ulaw", "quantized_tanh", "quantized_sigmoid", "quantized_po2", "quantized_relu_po2", "quantized_linear", "quantized_hswish", "QConv2DBatchnorm", "QDepthwiseConv2DBatchnorm", "QAveragePooling2D", "QGlobalAveragePooling2D", "QScaleShift"]
